@@ -35,6 +35,8 @@ def literals():
     add('str-escapes', s('a"b\\c\nd'), s('a"b\\c\nc'), s('a"b\\c\ne'), other=N.num(7.0))
     add('str-unicode', s(u'é'), s(u'è'), s(u'ê'), other=N.num(7.0))
     add('str-empty', s(''), None, s('a'), other=N.num(7.0))
+    add('str-blank-runs', s('a  b'), s('a   b'), s('a b'), other=N.num(7.0))
+    add('uri-blank-runs', ('uri', 'a  b'), other=('uri', 'a b'))
     add('uri', ('uri', 'http://x/y'), other=s('http://x/y'))
     add('ref', ('ref', 'x', None), other=s('x'))
     add('ref-display', ('ref', 'x', 'dis'), other=('ref', 'x', None))
@@ -161,6 +163,10 @@ def judge(hs, ast, text, rows, judged, st, sig, case, check_header=True):
     g, objs = build_grid(hs, rows)
     index = {id(r): o for r, o in zip(rows, objs)}
     before = O.observe_grid(g, hs)
+    # reference answers come from a twin grid that is never filtered (taking them from g itself would build g's
+    # lazily built id index before the filter runs and so hide index-dependent behaviour)
+    twin, _ = build_grid(hs, rows)
+    lookups_before = lookup_snapshot(hs, twin, rows)
     out = run_filter(hs, g, text)
     st.count('executions')
     expected = []
@@ -228,7 +234,30 @@ def judge(hs, ast, text, rows, judged, st, sig, case, check_header=True):
     if N.same(before, after, 'exact') or N.same(after, before, 'exact'):
         st.fail('filter-modified-the-source-grid', sig, case, {'filter': text})
         ok = False
+    lookups_after = lookup_snapshot(hs, g, rows)
+    if lookups_after != lookups_before:
+        changed = [k for k in lookups_before if lookups_before[k] != lookups_after.get(k)]
+        st.fail('filter-changed-what-the-source-grid-answers', dict(sig, lookup=str(changed[0])[:40] if changed else '?'), case,
+                {'filter': text, 'before': str(lookups_before)[:300], 'after': str(lookups_after)[:300]})
+        ok = False
     return ok
+
+
+def lookup_snapshot(hs, g, rows):
+    """What the grid answers to id lookups under every spelling of every row id (observable state beyond the rows)."""
+    snap = {}
+    for r in rows:
+        i = r.get('id')
+        if i is None:
+            continue
+        name = i[1]
+        for label, key in (('name', name), ('at-name', '@' + name), ('Ref', hs.Ref(name))):
+            try:
+                got = g.get(key)
+                snap[(name, label)] = None if got is None else [k for k, x in enumerate(g) if x is got]
+            except Exception as e:  # noqa
+                snap[(name, label)] = 'raised ' + type(e).__name__
+    return snap
 
 
 # ---- (1) structure --------------------------------------------------------------------------------
@@ -272,13 +301,15 @@ def shape_of(ast):
 # ---- (2) atoms ----------------------------------------------------------------------------------------
 
 def atom_cases(quick):
-    ids = ['str', 'ref'] if quick else ['str', 'ref', 'ref-display']
+    ids = ['str', 'ref', 'ref-display']
     for L in LITS:
         for path in PATHS:
             if quick and path in (('r', 'r', 'a'), ('order',), ('android',), ('andy',)) and L['name'] not in ('number', 'str', 'date', 'ref'):
                 continue
             for idstyle in ids:
                 if len(path) == 1 and idstyle != 'str' and L['name'] != 'number':
+                    continue
+                if quick and idstyle == 'ref-display' and L['name'] not in ('number', 'str', 'ref'):
                     continue
                 yield L['name'], path, idstyle
 
